@@ -102,6 +102,7 @@ func c16Term(r *Run) {
 	M := T.Draw("requests", 4)
 	handlerMode := T.Bool("handlerMode", 0.3)
 	respMode := T.Draw("respMode", 4) // 0 immediate, 1 short delay, 2 some never answered, 3 delay around T
+	usePerformHandshake := !handlerMode && T.Bool("performHandshake", 0.25) // the library's own two-goroutine helper
 	compression := r.DrawCompression(st.v)
 	opts := LinkOpts{
 		Capacity:   []int{1 << 20, 64, 4096, 1}[T.DrawP("capacity", 4, 0.6)],
@@ -128,6 +129,7 @@ func c16Term(r *Run) {
 	r.Config["senders"] = fmt.Sprint(K)
 	r.Config["requests"] = fmt.Sprint(M)
 	r.Config["handlerMode"] = fmt.Sprint(handlerMode)
+	r.Config["performHandshake"] = fmt.Sprint(usePerformHandshake)
 	r.Config["respMode"] = fmt.Sprint(respMode)
 	r.Config["compression"] = string(compression)
 	r.Config["fault"] = fmt.Sprintf("%s@%d", fault, crashStep)
@@ -242,7 +244,11 @@ func c16Term(r *Run) {
 			}
 		}
 		hsOK := false
-		if st.cc != nil {
+		if st.cc != nil && st.sc != nil && usePerformHandshake {
+			mainT.call(r, "PerformHandshake", func() { err = client.PerformHandshake(st.cc, st.sc, st.v, client.ManagedStreamId) })
+			hsOK = err == nil
+			r.Event("handshake (PerformHandshake) ok=%v", hsOK)
+		} else if st.cc != nil {
 			hsDone := make(doneChan)
 			if st.sc != nil && !handlerMode {
 				hsT := st.task("hsServer")
